@@ -245,15 +245,18 @@ func runCompute(c *fw.Ctx, idx int, count bool) {
 	c.Begin(cs)
 	nprotos := 2 + r.Intn(3)
 	var protos []*lua.FunctionProto
+	var srcs []string
 	var refs [][]string
 	var refStatus []string
 	var digests []string
 	for k := 0; k < nprotos; k++ {
-		p, err := compile(buildSource(c, idx, k))
+		src := buildSource(c, idx, k)
+		p, err := compile(src)
 		if err != nil {
 			continue
 		}
 		protos = append(protos, p)
+		srcs = append(srcs, src)
 		digests = append(digests, protoDigest(p))
 		tr, st := runProto(p, lua.Options{}, nil)
 		refs = append(refs, tr)
@@ -301,6 +304,17 @@ func runCompute(c *fw.Ctx, idx int, count bool) {
 				if jr.Intn(2) == 0 {
 					opts = lua.Options{MinimizeStackMemory: true, CallStackSize: 256, RegistrySize: 256, RegistryMaxSize: 65536}
 				}
+				if rep == 1 {
+					// compile the same text while the others compile and run: the result
+					// must be the prototype the sequential compilation gave
+					if p2, err := compile(srcs[k]); err != nil || protoDigest(p2) != digests[k] {
+						mu.Lock()
+						if bad == "" {
+							bad = fmt.Sprintf("goroutine %d: compiling source %d concurrently gave a different prototype than compiling it alone (err=%v)", g, k, err)
+						}
+						mu.Unlock()
+					}
+				}
 				tr, st := runProto(protos[k], opts, jr)
 				atomic.AddInt64(&total, int64(len(tr)))
 				if st != refStatus[k] || strings.Join(tr, ";") != strings.Join(refs[k], ";") {
@@ -346,6 +360,94 @@ func runCompute(c *fw.Ctx, idx int, count bool) {
 		c.Sample(map[string]any{"kind": "compute", "goroutines": N, "gomaxprocs": procs, "shared_protos": len(protos), "trace_entries": total})
 	}
 	c.End(N >= 2 && total >= 50, fmt.Sprintf("compute/%d", idx))
+}
+
+// ---------- (A2) per-state library tables ----------
+
+const taintSrc = `
+local id = ID
+local ch = channel.make(1)
+local places = {
+  function() return string end, function() return table end, function() return math end, function() return os end,
+  function() return io end, function() return coroutine end, function() return channel end, function() return debug end,
+  function() return package end, function() return package.loaded end, function() return package.preload end, function() return _G end,
+  function() return getmetatable("") end, function() return getmetatable("").__index end,
+  function() return getmetatable(ch) end, function() return getmetatable(ch).__index end,
+  function() return debug.getfenv(ch.send) end, function() return debug.getfenv(string.rep) end, function() return debug.getfenv(ch.receive) end,
+  function() return debug.getregistry() end,
+  function() return getmetatable(io.stdout) end, function() return getmetatable(io.stdout).__index end,
+  function() return debug.getfenv(io.stdout) end,
+}
+local tables = 0
+for rep = 1, REPS do
+  for i, p in ipairs(places) do
+    local ok, t = pcall(p)
+    if ok and type(t) == "table" then
+      tables = tables + 1
+      local seen = rawget(t, "taint")
+      if seen ~= nil and seen ~= id then emit("foreign", i, seen) end
+      rawset(t, "taint", id)
+    end
+  end
+end
+emit("done", id, tables > 0)
+`
+
+// runTaint: N states in goroutines write their own id into every library
+// table, type metatable, method table and function environment they can
+// reach, over and over, and must never read back another state's id.
+func runTaint(c *fw.Ctx, idx int, count bool) {
+	cs := Case{Kind: "taint", Idx: idx}
+	c.Begin(cs)
+	N := []int{2, 4, 8}[idx%3]
+	var wg sync.WaitGroup
+	var mu sync.Mutex
+	bad := ""
+	for g := 0; g < N; g++ {
+		wg.Add(1)
+		go func(g int) {
+			defer wg.Done()
+			L := lua.NewState()
+			defer L.Close()
+			var trace []string
+			L.SetGlobal("emit", L.NewFunction(func(L *lua.LState) int {
+				var parts []string
+				ids := gl.NewIDMap()
+				for i := 1; i <= L.GetTop(); i++ {
+					parts = append(parts, gl.Canon(L.Get(i), ids))
+				}
+				trace = append(trace, strings.Join(parts, ","))
+				return 0
+			}))
+			L.SetGlobal("ID", lua.LNumber(1000*idx+g))
+			L.SetGlobal("REPS", lua.LNumber(40))
+			o := gl.Protect(func() error { return L.DoString(taintSrc) })
+			want := fmt.Sprintf(`"done",%d,true`, 1000*idx+g)
+			mu.Lock()
+			defer mu.Unlock()
+			switch {
+			case bad != "":
+			case o.GoPanic != nil:
+				bad = "Go panic: " + o.PanicStr
+			case o.Err != nil:
+				bad = "script failed: " + errClass(o.Err.Error())
+			case len(trace) != 1 || trace[0] != want:
+				bad = fmt.Sprintf("state %d read another state's mark in one of its library tables: %v", g, trace)
+			}
+		}(g)
+	}
+	wg.Wait()
+	if count {
+		c.Count("taint_scenarios", 1)
+		c.Count("taint_states", int64(N))
+	}
+	if bad != "" {
+		cs.Diff = bad
+		c.Violation("concurrent states interfere: "+bad, cs)
+		c.End(false, "")
+		return
+	}
+	c.End(true, fmt.Sprintf("taint/%d", idx))
 }
 
 // ---------- (B) channels ----------
@@ -652,7 +754,7 @@ func runSelectAndPayload(c *fw.Ctx, count bool, withCtx bool) {
 	}))
 	L.SetGlobal("newud", L.NewFunction(func(L *lua.LState) int { L.Push(L.NewUserData()); return 1 }))
 	src := `
-local a, b, cc = channel.make(1), channel.make(1), channel.make(1)
+local a, b, cc, a2 = channel.make(1), channel.make(1), channel.make(1), channel.make(1)
 -- only b holds a value: the receive case on b is the only ready one
 b:send(7)
 emit("ready-recv", channel.select({"|<-", a}, {"|<-", b}, {"|<-", cc}))
@@ -665,6 +767,13 @@ emit("b-has", b:receive())
 -- closed channel: receive case ready with ok=false
 cc:close()
 emit("closed", channel.select({"|<-", cc}))
+-- the polling form on a closed, drained channel: the receive case is ready (it reports closure)
+emit("closed-poll", channel.select({"|<-", cc}, {"default"}))
+emit("closed-poll2", channel.select({"default"}, {"|<-", cc}))
+-- the polling form on an open empty channel and on one holding a value
+emit("empty-poll", channel.select({"|<-", a2}, {"default"}))
+a2:send(9)
+emit("full-poll", channel.select({"|<-", a2}, {"default"}))
 -- handler functions
 emit("handler", channel.select({"|<-", a, function(ok, v) return "got" .. tostring(v) end}))
 -- payloads
@@ -697,6 +806,10 @@ emit("sel-mt-table", pcall(channel.select, {"<-|", ch, setmetatable({}, {})}))
 		"ready-send": func(s string) bool { return strings.HasPrefix(s, `"ready-send",2`) },
 		"b-has":      func(s string) bool { return s == `"b-has",true,6` },
 		"closed":     func(s string) bool { return strings.HasPrefix(s, `"closed",1,nil,false`) },
+		"closed-poll":  func(s string) bool { return strings.HasPrefix(s, `"closed-poll",1,nil,false`) },
+		"closed-poll2": func(s string) bool { return strings.HasPrefix(s, `"closed-poll2",2,nil,false`) },
+		"empty-poll":   func(s string) bool { return strings.HasPrefix(s, `"empty-poll",2`) },
+		"full-poll":    func(s string) bool { return strings.HasPrefix(s, `"full-poll",1,9,true`) },
 		"handler":    func(s string) bool { return strings.HasPrefix(s, `"handler",1`) },
 		"fn":         func(s string) bool { return strings.HasPrefix(s, `"fn",false`) },
 		"ud":         func(s string) bool { return strings.HasPrefix(s, `"ud",false`) },
@@ -749,6 +862,11 @@ func run(c *fw.Ctx) {
 			runChannels(c, i, true)
 		}
 	}
+	for i := 0; i < c.Pick(12, 200); i++ {
+		if c.Mine(i) {
+			runTaint(c, i, true)
+		}
+	}
 	runSelectAndPayload(c, true, false)
 	runSelectAndPayload(c, true, true)
 }
@@ -764,6 +882,8 @@ func replay(c *fw.Ctx, raw json.RawMessage) {
 		runCompute(c, cs.Idx, false)
 	case "channels":
 		runChannels(c, cs.Idx, false)
+	case "taint":
+		runTaint(c, cs.Idx, false)
 	default:
 		runSelectAndPayload(c, false, cs.Kind == "select-payload-ctx")
 	}
